@@ -232,12 +232,13 @@ class LoopGen:
             inner = dict(sc)
             inner[c] = 'R'
             bound = r.randint(1, 4)
-            b = self.body(inner, d, [c], lists)
-            b.append(Node('assign', PV(c), Node('op2', 'add', V(c), lit(1))))
+            # the condition first: it may not mention a variable the body introduces
             if r.random() < 0.3:
-                cond = Node('and', [Node('cmp', ['<'], [V(c), lit(bound)]), self.expr_B(inner, 0)])
+                cond = Node('and', [Node('cmp', ['<'], [V(c), lit(bound)]), self.expr_B(dict(inner), 0)])
             else:
                 cond = Node('cmp', ['<'], [V(c), lit(bound)])
+            b = self.body(inner, d, [c], lists)
+            b.append(Node('assign', PV(c), Node('op2', 'add', V(c), lit(1))))
             self.features.add('while')
             return [Node('assign', PV(c), lit(0)), Node('while', cond, b)]
         if kind == 'for':
@@ -393,10 +394,11 @@ class LoopGen:
                 cvar = self.fresh('c')
                 inner = dict(sc)
                 inner[cvar] = 'R'
+                wcond = Node('and', [Node('cmp', ['<'], [V(cvar), lit(r.randint(1, 3))]), self.anyall(dict(inner), lists)])
                 wb = self.body(inner, 0, [cvar], lists, 1, allow_ret=False)
                 wb.append(Node('assign', PV(cvar), Node('op2', 'add', V(cvar), lit(1))))
                 out.append(Node('assign', PV(cvar), lit(0)))
-                out.append(Node('while', Node('and', [Node('cmp', ['<'], [V(cvar), lit(r.randint(1, 3))]), self.anyall(inner, lists)]), wb))
+                out.append(Node('while', wcond, wb))
                 self.features.add('fuse-in-while-cond')
             elif c < 0.86:
                 # the comprehension target shadows an outer variable
